@@ -51,6 +51,23 @@ theorem partial_suffix_rejected :
     ∀ k ∈ [1, 2, 3, 4, 5, 6, 7, 9], unmarshalVersionedSnapshot (wBody ++ List.replicate k 0) = none := by
   decide
 
+/-- The tail handling of `DecodeSnapshotWithTopo` *before* the `fix:` commit (kept here as the
+    record of finding `C07:partial-topo-suffix`, not part of the model): the "data short"
+    error of `ReadUint64` was overwritten and `ReadByte` then saw `io.EOF`. -/
+def readTailBeforeFix (b : Bytes) : Option Nat :=
+  if b.length = 0 then some 0
+  else if b.length < 8 then some 0
+  else if b.length = 8 then some (beNat b)
+  else none
+
+/-- the defect and its repair, on the tail of the witnesses: 1..7 stray octets were accepted
+    as topology 0 (so `body ++ stray` decoded to a snapshot whose encodings are `body` and
+    `body ++ be64 0`, neither equal to the input); they are now rejected -/
+theorem partial_suffix_before_and_after_fix :
+    ∀ k ∈ [1, 2, 3, 4, 5, 6, 7],
+      readTailBeforeFix (List.replicate k 0) = some 0 ∧ readTail (List.replicate k 0) = none := by
+  decide
+
 /-! ## structure of accepted snapshots -/
 
 /-- **Structure.** An accepted snapshot has version 2, holds 1 to 255 transaction hashes of 32
